@@ -24,7 +24,7 @@ RULE = ("case = (exponential model | copula of exponential models d = 2, 3, cred
         "payoff] by quadrature; non-trivial = default intensity > 1e-9; distinct = distinct seed")
 ASSUMPTIONS = ["thresholds strictly between the left truncation and -h (C13 domain); copulas with finite-variation margins",
                "copula callable trusted (C11); tail integrals by quadrature"]
-REQUIRED_COUNTERS = ["chain_vs_closed_form_1d", "chain_vs_region_mass_nd", "closed_form_vs_inclusion_exclusion", "monotonicity_checks", "default_rate_of_the_adapted_tree_sampler", "first_to_default_times_on_simulated_paths",
+REQUIRED_COUNTERS = ["zero_recovery_cases", "other_model_priced_at_the_same_thresholds_before", "chain_vs_closed_form_1d", "chain_vs_region_mass_nd", "closed_form_vs_inclusion_exclusion", "monotonicity_checks", "default_rate_of_the_adapted_tree_sampler", "first_to_default_times_on_simulated_paths",
                      "relation_checks", "inverse_roundtrips", "cds_expectation_checks", "threshold_on_cell_boundary"]
 MIN_NONTRIVIAL = {"quick": 30, "thorough": 400}
 THOROUGH_ROUNDS = 20      # the thorough tier runs the generators this many times (different seeds)
@@ -104,6 +104,9 @@ def _one(case, R, rng):
         return
     a = g["_levels"][0]
     rec_, t, T = float(rng.uniform(0, 0.9)), float(rng.uniform(0.1, 10)), float(rng.uniform(0.5, 10))
+    if case["seed"] % 4 == 0:
+        rec_ = 0.0          # nothing recovered: a recovery rate like any other
+        R.hit("zero_recovery_cases")
     wit = {"model": spec, "grid": g, "level": a, "recovery": rec_, "t": t}
     axis = np.asarray(grid.axes[0], dtype=float)
     R.hit("threshold_on_cell_boundary")
@@ -178,7 +181,23 @@ def _nd(case, R, rng):
         return
     levels = g["_levels"]
     rec_, t, T = float(rng.uniform(0, 0.9)), float(rng.uniform(0.1, 10)), float(rng.uniform(0.5, 10))
+    if case["seed"] % 4 == 0:
+        rec_ = 0.0
+        R.hit("zero_recovery_cases")
     wit = {"model": cm, "grid": g, "levels": levels, "recovery": rec_, "t": t}
+    # another multi-name model priced at the very same thresholds earlier in the same process (closed forms of different models must not
+    # share anything)
+    try:
+        cm_other = W.gen_copula_model_spec(np.random.default_rng(case["seed"] + 3), dim=d, kind="clayton", exp=True)
+        W.limit_variation(np.random.default_rng(case["seed"] + 4), cm_other, allow_infinite=False, y_hi=0.7)
+        for ms in cm_other["margins"]:
+            ms["r"], ms["d"] = r_common, 0.0
+            if ms["family"] == "HEM":
+                ms["params"]["eta1"] = max(ms["params"]["eta1"], 1.5)
+        float(CFLevyCopulaModel(W.build_copula_model(cm_other))._theta(list(levels)))
+        R.hit("other_model_priced_at_the_same_thresholds_before")
+    except Exception:  # noqa: BLE001  (the other model is not the subject)
+        pass
     label = W.copula_label(cm)
     R.hit("threshold_on_cell_boundary")
     for k in range(d):
